@@ -406,32 +406,36 @@ func (s *EtcdStore) growTopic(ctx context.Context, topic string, partitionCount 
 	s.persistMu.Lock()
 	defer s.persistMu.Unlock()
 
-	meta, err := s.metadata.Metadata(ctx, []string{topic})
+	var newPartitions []protocol.MetadataPartition
+	err := s.updateSnapshotLocked(ctx, func() error {
+		meta, err := s.metadata.Metadata(ctx, []string{topic})
+		if err != nil {
+			return err
+		}
+		if len(meta.Topics) == 0 || meta.Topics[0].ErrorCode != 0 {
+			return ErrUnknownTopic
+		}
+		current := int32(len(meta.Topics[0].Partitions))
+		if partitionCount <= current {
+			return ErrInvalidTopic
+		}
+		if err := s.metadata.CreatePartitions(ctx, topic, partitionCount); err != nil {
+			return err
+		}
+		updated, err := s.metadata.Metadata(ctx, []string{topic})
+		if err != nil {
+			return err
+		}
+		if len(updated.Topics) == 0 || updated.Topics[0].ErrorCode != 0 {
+			return ErrUnknownTopic
+		}
+		newPartitions = updated.Topics[0].Partitions[current:partitionCount]
+		if int32(len(newPartitions)) != partitionCount-current {
+			return fmt.Errorf("metadata: expected %d new partitions, got %d", partitionCount-current, len(newPartitions))
+		}
+		return nil
+	})
 	if err != nil {
-		return nil, err
-	}
-	if len(meta.Topics) == 0 || meta.Topics[0].ErrorCode != 0 {
-		return nil, ErrUnknownTopic
-	}
-	current := int32(len(meta.Topics[0].Partitions))
-	if partitionCount <= current {
-		return nil, ErrInvalidTopic
-	}
-	if err := s.metadata.CreatePartitions(ctx, topic, partitionCount); err != nil {
-		return nil, err
-	}
-	updated, err := s.metadata.Metadata(ctx, []string{topic})
-	if err != nil {
-		return nil, err
-	}
-	if len(updated.Topics) == 0 || updated.Topics[0].ErrorCode != 0 {
-		return nil, ErrUnknownTopic
-	}
-	newPartitions := updated.Topics[0].Partitions[current:partitionCount]
-	if int32(len(newPartitions)) != partitionCount-current {
-		return nil, fmt.Errorf("metadata: expected %d new partitions, got %d", partitionCount-current, len(newPartitions))
-	}
-	if err := s.persistSnapshotLocked(ctx); err != nil {
 		return nil, err
 	}
 	return newPartitions, nil
@@ -443,11 +447,13 @@ func (s *EtcdStore) CreateTopic(ctx context.Context, spec TopicSpec) (*protocol.
 	s.persistMu.Lock()
 	defer s.persistMu.Unlock()
 
-	topic, err := s.metadata.CreateTopic(ctx, spec)
+	var topic *protocol.MetadataTopic
+	err := s.updateSnapshotLocked(ctx, func() error {
+		var err error
+		topic, err = s.metadata.CreateTopic(ctx, spec)
+		return err
+	})
 	if err != nil {
-		return nil, err
-	}
-	if err := s.persistSnapshotLocked(ctx); err != nil {
 		return nil, err
 	}
 	return topic, nil
@@ -478,32 +484,31 @@ func (s *EtcdStore) DeleteTopic(ctx context.Context, name string) error {
 	s.persistMu.Lock()
 	defer s.persistMu.Unlock()
 
-	metaCtx, cancel := context.WithTimeout(ctx, 3*time.Second)
-	defer cancel()
-	state, err := s.metadata.Metadata(metaCtx, []string{name})
-	if err != nil {
-		return err
-	}
-	var found bool
-	for _, topic := range state.Topics {
-		if *topic.Topic == name {
-			found = true
-			break
+	return s.updateSnapshotLocked(ctx, func() error {
+		metaCtx, cancel := context.WithTimeout(ctx, 3*time.Second)
+		defer cancel()
+		state, err := s.metadata.Metadata(metaCtx, []string{name})
+		if err != nil {
+			return err
 		}
-	}
-	if !found {
-		return ErrUnknownTopic
-	}
-	if err := s.metadata.DeleteTopic(ctx, name); err != nil {
-		return err
-	}
-	if err := s.deleteTopicOffsets(ctx, name); err != nil {
-		return err
-	}
-	if err := s.deleteConsumerOffsets(ctx, name); err != nil {
-		return err
-	}
-	return s.persistSnapshotLocked(ctx)
+		var found bool
+		for _, topic := range state.Topics {
+			if *topic.Topic == name {
+				found = true
+				break
+			}
+		}
+		if !found {
+			return ErrUnknownTopic
+		}
+		if err := s.metadata.DeleteTopic(ctx, name); err != nil {
+			return err
+		}
+		if err := s.deleteTopicOffsets(ctx, name); err != nil {
+			return err
+		}
+		return s.deleteConsumerOffsets(ctx, name)
+	})
 }
 
 func (s *EtcdStore) startWatchers() {
@@ -540,44 +545,91 @@ func (s *EtcdStore) watchSnapshot(ctx context.Context) {
 func (s *EtcdStore) refreshSnapshot(ctx context.Context) error {
 	s.persistMu.Lock()
 	defer s.persistMu.Unlock()
+	_, err := s.refreshSnapshotLocked(ctx)
+	return err
+}
 
+// refreshSnapshotLocked loads the snapshot from etcd into the in-memory state and
+// returns the mod revision it was read at (0 when the key does not exist yet).
+func (s *EtcdStore) refreshSnapshotLocked(ctx context.Context) (int64, error) {
 	ctx, cancel := context.WithTimeout(ctx, 5*time.Second)
 	defer cancel()
 	resp, err := s.client.Get(ctx, snapshotKey())
 	if err != nil {
 		s.recordEtcdResult(err)
-		return err
+		return 0, err
 	}
 	s.recordEtcdResult(nil)
 	if len(resp.Kvs) == 0 {
-		return nil
+		return 0, nil
 	}
 	var snapshot ClusterMetadata
 	if err := json.Unmarshal(resp.Kvs[0].Value, &snapshot); err != nil {
-		return err
+		return 0, err
 	}
 	s.metadata.Update(snapshot)
-	return nil
+	return resp.Kvs[0].ModRevision, nil
 }
 
 func snapshotKey() string {
 	return "/kafscale/metadata/snapshot"
 }
 
-func (s *EtcdStore) persistSnapshotLocked(ctx context.Context) error {
+// snapshotUpdateAttempts bounds the reload/re-apply loop of updateSnapshotLocked.
+const snapshotUpdateAttempts = 8
+
+// ErrSnapshotConflict is returned when the snapshot kept changing underneath an update.
+var ErrSnapshotConflict = errors.New("metadata snapshot update conflict")
+
+// updateSnapshotLocked applies mutate to the cluster snapshot. The snapshot key holds
+// the whole topic table and is written by every broker and by the operator, so a
+// plain put of the local copy would erase whatever another writer added since our
+// last watch refresh. Instead the latest snapshot is loaded first, mutate is applied
+// to it, and the result is written only if the key still has the revision that was
+// read; otherwise everything is retried on the newer snapshot. mutate may therefore
+// run more than once and its error is returned unchanged. Callers hold persistMu.
+func (s *EtcdStore) updateSnapshotLocked(ctx context.Context, mutate func() error) error {
+	for attempt := 0; attempt < snapshotUpdateAttempts; attempt++ {
+		rev, err := s.refreshSnapshotLocked(ctx)
+		if err != nil {
+			return err
+		}
+		if err := mutate(); err != nil {
+			return err
+		}
+		written, err := s.persistSnapshotLocked(ctx, rev)
+		if err != nil {
+			return err
+		}
+		if written {
+			return nil
+		}
+	}
+	return ErrSnapshotConflict
+}
+
+// persistSnapshotLocked writes the in-memory snapshot if the key is still at
+// modRevision (0: the key must not exist). It reports whether the write happened.
+func (s *EtcdStore) persistSnapshotLocked(ctx context.Context, modRevision int64) (bool, error) {
 	state, err := s.metadata.Metadata(context.Background(), nil)
 	if err != nil {
-		return err
+		return false, err
 	}
 	payload, err := json.Marshal(state)
 	if err != nil {
-		return err
+		return false, err
 	}
 	putCtx, cancel := context.WithTimeout(ctx, 5*time.Second)
 	defer cancel()
-	_, err = s.client.Put(putCtx, snapshotKey(), string(payload))
+	resp, err := s.client.Txn(putCtx).
+		If(clientv3.Compare(clientv3.ModRevision(snapshotKey()), "=", modRevision)).
+		Then(clientv3.OpPut(snapshotKey(), string(payload))).
+		Commit()
 	s.recordEtcdResult(err)
-	return err
+	if err != nil {
+		return false, err
+	}
+	return resp.Succeeded, nil
 }
 
 func (s *EtcdStore) deleteTopicOffsets(ctx context.Context, topic string) error {
